@@ -5,6 +5,7 @@ package props
 import (
 	"fmt"
 	"reflect"
+	"strings"
 	"testing"
 
 	"verifharness/core"
@@ -30,6 +31,7 @@ type resOp struct {
 
 type resReplay struct {
 	Property string  `json:"property"`
+	Test     string  `json:"test,omitempty"`
 	Build    string  `json:"build"`
 	Message  string  `json:"message"`
 	NDyn     int     `json:"ndyn"`
@@ -367,22 +369,25 @@ func runResCase(c *resReplay) string {
 	return ""
 }
 
-func TestC20(t *testing.T) {
-	withStats(t, "C20", func(st *core.Stats) {
-		st.Rule = "sequences of Add/Remove/Get/Has over 4 static resource types (through Resources, generic.Resource and AddResource/GetResource) and up to MaskTotalBits-4 dynamic ones, registered in a generated order interleaved with component-type registrations, entity creation/removal, open queries (world lock) and Reset, with illegal Add-present / Remove-absent injected; after every op every registered resource type is read through Resources, and at generated steps (and at the end) through the long-lived generic.Resource mappers and GetResource as well (a mapper asked after every step could never be caught with a stale value); Remove+Add of a new pointer in one step is an op of its own: Has == model, Get == the exact pointer passed to Add (nil when absent), resource IDs dense in their own registry and stable; non-trivial = >= 3 resource types present at some point with a removal in between and a lock or Reset in the history"
+// runResProp runs the generated resource histories under a property's name; owns (nil: everything)
+// selects the mismatches that belong to it, any other mismatch ends the case quietly.
+func runResProp(t *testing.T, id, test, rule string, owns func(msg string) bool) {
+	withStats(t, id, func(st *core.Stats) {
+		st.Rule = rule
+		mine := func(msg string) bool { return owns == nil || owns(msg) }
 		limit := ecs.MaskTotalBits
 		if path, ok := replaying(); ok {
 			var r resReplay
 			if err := core.ReadReplay(path, &r); err != nil {
 				t.Fatalf("cannot read replay: %v", err)
 			}
-			if msg := runResCase(&r); msg != "" {
-				t.Fatalf("C20 violated: %s", msg)
+			if msg := runResCase(&r); msg != "" && mine(msg) {
+				t.Fatalf("%s violated: %s", id, msg)
 			}
 			return
 		}
 		rapid.Check(t, func(rt *rapid.T) {
-			c := &resReplay{Property: "C20", Build: core.BuildName()}
+			c := &resReplay{Property: id, Test: test, Build: core.BuildName()}
 			c.NDyn = rapid.SampledFrom([]int{0, 1, 2, 3, 5, 8, 20, limit - nStaticRes}).Draw(rt, "ndyn")
 			n := nStaticRes + c.NDyn
 			npre := rapid.IntRange(0, min(n, 6)).Draw(rt, "npre")
@@ -452,12 +457,30 @@ func TestC20(t *testing.T) {
 			}
 			cs.Sample(func() any { return c })
 			if msg := runResCase(c); msg != "" {
+				if !mine(msg) {
+					st.Count("unowned mismatch (case ended)", 1)
+					return
+				}
 				c.Message = msg
 				core.WriteFail(c)
-				rt.Fatalf("C20 violated: %s", msg)
+				rt.Fatalf("%s violated: %s", id, msg)
 			}
 		})
 	})
+}
+
+func TestC20(t *testing.T) {
+	runResProp(t, "C20", "TestC20", "sequences of Add/Remove/Get/Has over 4 static resource types (through Resources, generic.Resource and AddResource/GetResource) and up to MaskTotalBits-4 dynamic ones, registered in a generated order interleaved with component-type registrations, entity creation/removal, open queries (world lock) and Reset, with illegal Add-present / Remove-absent injected; after every op every registered resource type is read through Resources, and at generated steps (and at the end) through the long-lived generic.Resource mappers and GetResource as well (a mapper asked after every step could never be caught with a stale value); Remove+Add of a new pointer in one step is an op of its own: Has == model, Get == the exact pointer passed to Add (nil when absent), resource IDs dense in their own registry and stable; non-trivial = >= 3 resource types present at some point with a removal in between and a lock or Reset in the history", nil)
+}
+
+// TestC18Resource is the resource part of C18: generic.Resource[T] (long-lived mappers) and
+// GetResource[T] must answer exactly like the ID-based Resources calls on the same world, whatever
+// access path changed the resource in between. Only disagreements of the generic accessors are owned;
+// the resource map itself is C20's business.
+func TestC18Resource(t *testing.T) {
+	runResProp(t, "C18", "TestC18Resource",
+		"resource part: the generated resource histories of C20 (Add/Remove/replace through Resources, generic.Resource and AddResource, registrations, locks, Reset; mappers are read at generated steps only); owned oracle: whenever the ID-based Has/Get of a resource agree with the model, generic.Resource.Has/Get and GetResource must give the same answer and the identical pointer",
+		func(msg string) bool { return strings.Contains(msg, "generic.Resource.") })
 }
 
 func seqInts(n int) []int {
